@@ -182,6 +182,50 @@ theorem C20_add_commutes_queries (H : HashFn) (dbg : Bool) (f fab fba : BloomFil
     intro p
     exact h4 p
 
+/-- **The bit field after any list of insertions**, exactly: bit `j` is set iff it was set before or
+    `j` is a BIP-37 position of one of the elements.  Length, function count and tweak are kept.
+    (The right-hand side does not depend on the order of `ds`: any permutation, and any repetition,
+    of the elements gives the same bits.) -/
+theorem C20_addAll_bits (H : HashFn) (dbg : Bool) (ds : List Bytes) (f : BloomFilter)
+    (h0 : 0 < f.filter.length) (hl : f.filter.length < 2 ^ 29) :
+    ∃ f2, addAll H dbg f ds = .ok f2 ∧ f2.filter.length = f.filter.length ∧
+      f2.numHashFuncs = f.numHashFuncs ∧ f2.tweak = f.tweak ∧
+      ∀ j, getBit f2.filter j =
+        (getBit f.filter j ||
+          ds.any (fun d => decide (j ∈ positions H (8 * f.filter.length) f.numHashFuncs f.tweak d))) := by
+  induction ds generalizing f with
+  | nil => exact ⟨f, rfl, rfl, rfl, rfl, by simp⟩
+  | cons d ds ih =>
+    have ld := insert_length H f.filter f.numHashFuncs f.tweak d
+    obtain ⟨f2, e, l2, n2, t2, b2⟩ :=
+      ih { f with filter := Spec.Bip37Bloom.insert H f.filter f.numHashFuncs f.tweak d }
+        (by simp only [ld]; exact h0) (by simp only [ld]; exact hl)
+    simp only at l2 n2 t2 b2
+    refine ⟨f2, ?_, by rw [l2, ld], n2, t2, ?_⟩
+    · simp only [addAll]
+      rw [add_eq_spec H dbg f d hl]
+      exact e
+    · intro j
+      rw [b2 j, getBit_insert H _ _ _ d j h0, ld, List.any_cons, Bool.or_assoc]
+
+/-- order and multiplicity of insertions are irrelevant: two lists with the same elements give the same bits -/
+theorem C20_addAll_order_irrelevant (H : HashFn) (dbg : Bool) (ds es : List Bytes) (f f1 f2 : BloomFilter)
+    (h0 : 0 < f.filter.length) (hl : f.filter.length < 2 ^ 29) (hse : ∀ d, d ∈ ds ↔ d ∈ es)
+    (h1 : addAll H dbg f ds = .ok f1) (h2 : addAll H dbg f es = .ok f2) (j : Nat) :
+    getBit f1.filter j = getBit f2.filter j := by
+  obtain ⟨x, ex, _, _, _, bx⟩ := C20_addAll_bits H dbg ds f h0 hl
+  obtain ⟨y, ey, _, _, _, by'⟩ := C20_addAll_bits H dbg es f h0 hl
+  rw [h1] at ex; rw [h2] at ey
+  injection ex with ex; injection ey with ey
+  subst ex; subst ey
+  rw [bx j, by' j]
+  congr 1
+  rw [Bool.eq_iff_iff]
+  simp only [List.any_eq_true, decide_eq_true_eq]
+  constructor
+  · rintro ⟨d, hd, hp⟩; exact ⟨d, (hse d).mp hd, hp⟩
+  · rintro ⟨d, hd, hp⟩; exact ⟨d, (hse d).mpr hd, hp⟩
+
 /-! ## no panic -/
 
 /-- **No panic** in `add`, `contains`, `validate` for every filter (empty ones included), every
@@ -355,6 +399,8 @@ example : add toyH true ⟨[0, 0], 2, 3⟩ [7] = .ok ⟨[0x08, 0x01], 2, 3⟩ :=
 example : contains toyH true ⟨[0x08, 0x01], 2, 3⟩ [7] = .ok true := by decide
 example : contains toyH true ⟨[0x08, 0x00], 2, 3⟩ [7] = .ok false := by decide
 example : add toyH false ⟨[], 1, 0⟩ [] = .ok ⟨[], 1, 0⟩ := by decide
+example : addAll toyH true ⟨[0, 0], 2, 3⟩ [[7], [9]] = addAll toyH true ⟨[0, 0], 2, 3⟩ [[9], [7], [9]] := by decide
+example : (0 : Nat) < ([0, 0] : Bytes).length ∧ ([0, 0] : Bytes).length < 2 ^ 29 := by decide
 example : contains toyH false ⟨[], 1, 0⟩ [] = .ok true := by decide
 example (flt : Bytes) (h : flt.length = 36000) : validate ⟨flt, 50, 0⟩ = .ok () :=
   (C20_validate_iff _).2 ⟨by simp [h], by simp⟩
